@@ -50,6 +50,17 @@ def run(ctx):
         r = ctx.tlc("Login", cfg_text=cfg, workers=1, timeout=1200)
         hists = r.printed_json("HIST")
         total_states += r.distinct
+        # a burst of concurrent complete online logins (the harness pauses every login between the
+        # session server's answer and its use, so the answers of different logins are in flight
+        # together): each is judged like any other history
+        def complete_online(h):
+            return ([x["k"] for x in h["h"]] == ["start", "enc"] and h["h"][0].get("name") == "v"
+                    and h["h"][1].get("tok") == "exact" and h["h"][1].get("sec") == "ok"
+                    and h["sess"] in ("ok", "okany")
+                    and (h["pre"] == "forceOnline" or (cfg_online and h["pre"] == "allow")))
+        burst = [h for h in hists if complete_online(h)]
+        if not burst:
+            raise vlib.ToolError("no complete online login among the exported histories")
         rnd = random.Random(ctx.seed * 7 + cfg_online)
         if ctx.quick:
             # every one-packet history and every [login start, encryption response] history,
@@ -64,17 +75,6 @@ def run(ctx):
         else:
             rnd.shuffle(hists)
             hists = hists[:12000]
-        # a burst of concurrent complete online logins (the harness pauses every login between the
-        # session server's answer and its use, so the answers of different logins are in flight
-        # together): each is judged like any other history
-        def complete_online(h):
-            return ([x["k"] for x in h["h"]] == ["start", "enc"] and h["h"][0].get("name") == "v"
-                    and h["h"][1].get("tok") == "exact" and h["h"][1].get("sec") == "ok"
-                    and h["sess"] in ("ok", "okany")
-                    and (h["pre"] == "forceOnline" or (cfg_online and h["pre"] == "allow")))
-        burst = [h for h in hists if complete_online(h)]
-        if not burst:
-            raise vlib.ToolError("no complete online login among the exported histories")
         hists = hists + [burst[i % len(burst)] for i in range(ctx.pick(72, 480))]
         nhist += len(hists)
         ctx.log("Login.tla (online=%s): %d states, replaying %d histories" % (cfg_online, r.distinct, len(hists)))
